@@ -4,6 +4,7 @@ import (
 	"fmt"
 	"go/ast"
 	"go/token"
+	"go/types"
 	"os"
 	"path/filepath"
 	"sort"
@@ -21,6 +22,13 @@ type selRow struct {
 	cases      []string
 }
 
+// a channel send / receive / range outside any select: it blocks with no alternative
+type bareRow struct {
+	fn   string
+	line int
+	op   string // "chan<-" (send), "<-chan" (receive), "range chan"
+}
+
 type accRow struct {
 	strct, field string
 	write        bool
@@ -33,6 +41,17 @@ type accRow struct {
 type callEdge struct {
 	from, to string
 	locks    []string
+}
+
+// lock acquisitions and calls with struct-qualified lock names ("TimeoutManager.mu"), for the
+// interprocedural lock-order check
+type acqRow struct {
+	fn, lock string
+	held     []string
+}
+type qcallRow struct {
+	from, to string // to = "Type.Method" or "function"
+	held     []string
 }
 
 func exprStr(p *pkgInfo, e ast.Expr) string {
@@ -112,6 +131,115 @@ type walker struct {
 	gos      *[]callEdge
 	fields   map[string]map[string]bool // struct -> field set
 	ngo      *int
+	bares    *[]bareRow
+	inComm   bool
+	acqs     *[]acqRow
+	qcalls   *[]qcallRow
+	qual     map[string]string // lock expression text -> qualified name
+}
+
+func typeName(t types.Type) string {
+	for {
+		switch x := t.(type) {
+		case *types.Pointer:
+			t = x.Elem()
+			continue
+		case *types.Named:
+			return x.Obj().Name()
+		}
+		return ""
+	}
+}
+
+// qualLock turns a lock expression (m.mu, g.sendQueue.mu) into "<struct type>.<field>".
+func (w *walker) qualLock(e ast.Expr) string {
+	if se, ok := e.(*ast.SelectorExpr); ok {
+		if tv, ok := w.p.info.Types[se.X]; ok && tv.Type != nil {
+			if n := typeName(tv.Type); n != "" {
+				return n + "." + se.Sel.Name
+			}
+		}
+	}
+	return "expr." + exprStr(w.p, e)
+}
+
+func (w *walker) qualHeld(locks []string) []string {
+	var out []string
+	for _, l := range locks {
+		if q, ok := w.qual[l]; ok {
+			out = append(out, q)
+		} else {
+			out = append(out, "expr."+l)
+		}
+	}
+	return out
+}
+
+// bareOps records the channel operations of one statement's own expressions (not of nested
+// blocks or function literals, which are walked on their own) unless the statement is the
+// communication clause of a select.
+func (w *walker) bareOps(s ast.Stmt) {
+	if w.inComm || w.bares == nil {
+		return
+	}
+	line := w.p.fset.Position(s.Pos()).Line
+	var exprs []ast.Expr
+	switch x := s.(type) {
+	case *ast.SendStmt:
+		*w.bares = append(*w.bares, bareRow{w.fn, line, exprStr(w.p, x.Chan) + "<-"})
+		exprs = []ast.Expr{x.Value}
+	case *ast.ExprStmt:
+		exprs = []ast.Expr{x.X}
+	case *ast.AssignStmt:
+		exprs = append(append([]ast.Expr{}, x.Rhs...), x.Lhs...)
+	case *ast.ReturnStmt:
+		exprs = x.Results
+	case *ast.IfStmt:
+		exprs = []ast.Expr{x.Cond}
+	case *ast.ForStmt:
+		if x.Cond != nil {
+			exprs = []ast.Expr{x.Cond}
+		}
+	case *ast.SwitchStmt:
+		if x.Tag != nil {
+			exprs = []ast.Expr{x.Tag}
+		}
+	case *ast.RangeStmt:
+		if tv, ok := w.p.info.Types[x.X]; ok && tv.Type != nil {
+			if _, isChan := tv.Type.Underlying().(*types.Chan); isChan {
+				*w.bares = append(*w.bares, bareRow{w.fn, line, "range " + exprStr(w.p, x.X)})
+			}
+		}
+		exprs = []ast.Expr{x.X}
+	case *ast.DeclStmt:
+		if gd, ok := x.Decl.(*ast.GenDecl); ok {
+			for _, sp := range gd.Specs {
+				if vs, ok := sp.(*ast.ValueSpec); ok {
+					exprs = append(exprs, vs.Values...)
+				}
+			}
+		}
+	case *ast.DeferStmt:
+		exprs = []ast.Expr{x.Call}
+	case *ast.GoStmt:
+		exprs = append([]ast.Expr{}, x.Call.Args...)
+	}
+	for _, e := range exprs {
+		if e == nil {
+			continue
+		}
+		ast.Inspect(e, func(n ast.Node) bool {
+			switch u := n.(type) {
+			case *ast.FuncLit:
+				return false
+			case *ast.UnaryExpr:
+				if u.Op == token.ARROW {
+					*w.bares = append(*w.bares, bareRow{w.fn, line, "<-" + exprStr(w.p, u.X)})
+				}
+			}
+			return true
+		})
+	}
 }
 
 func cloneLocks(l []string) []string { return append([]string{}, l...) }
@@ -123,6 +251,9 @@ func (w *walker) lockOp(c *ast.CallExpr) (lock string, acquire, release bool) {
 	}
 	switch se.Sel.Name {
 	case "Lock", "RLock":
+		if w.qual != nil {
+			w.qual[exprStr(w.p, se.X)] = w.qualLock(se.X)
+		}
 		return exprStr(w.p, se.X), true, false
 	case "Unlock", "RUnlock":
 		return exprStr(w.p, se.X), false, true
@@ -184,6 +315,29 @@ func (w *walker) call(c *ast.CallExpr, locks []string) {
 	if name != "" {
 		*w.calls = append(*w.calls, callEdge{from: w.fn, to: name, locks: cloneLocks(locks)})
 	}
+	if w.qcalls == nil || name == "" {
+		return
+	}
+	to := ""
+	switch f := c.Fun.(type) {
+	case *ast.Ident:
+		if obj, ok := w.p.info.Uses[f]; ok {
+			if fn, ok := obj.(*types.Func); ok && fn.Pkg() == w.p.pkg {
+				to = fn.Name()
+			}
+		}
+	case *ast.SelectorExpr:
+		if sel, ok := w.p.info.Selections[f]; ok {
+			if fn, ok := sel.Obj().(*types.Func); ok && fn.Pkg() == w.p.pkg {
+				if n := typeName(sel.Recv()); n != "" {
+					to = n + "." + fn.Name()
+				}
+			}
+		}
+	}
+	if to != "" {
+		*w.qcalls = append(*w.qcalls, qcallRow{from: w.fn, to: to, held: w.qualHeld(locks)})
+	}
 }
 
 func (w *walker) block(list []ast.Stmt, locks []string, inLit bool) []string {
@@ -194,10 +348,14 @@ func (w *walker) block(list []ast.Stmt, locks []string, inLit bool) []string {
 }
 
 func (w *walker) stmt(s ast.Stmt, locks []string, inLit bool) []string {
+	w.bareOps(s)
 	switch x := s.(type) {
 	case *ast.ExprStmt:
 		if c, ok := x.X.(*ast.CallExpr); ok {
 			if l, acq, rel := w.lockOp(c); acq {
+				if w.acqs != nil {
+					*w.acqs = append(*w.acqs, acqRow{fn: w.fn, lock: w.qual[l], held: w.qualHeld(locks)})
+				}
 				return append(locks, l)
 			} else if rel {
 				var out []string
@@ -309,7 +467,9 @@ func (w *walker) stmt(s ast.Stmt, locks []string, inLit bool) []string {
 				row.hasDefault = true
 			} else {
 				row.cases = append(row.cases, commChan(w.p, c.Comm))
+				w.inComm = true
 				w.stmt(c.Comm, cloneLocks(locks), inLit)
+				w.inComm = false
 			}
 			w.block(c.Body, cloneLocks(locks), inLit)
 		}
@@ -381,6 +541,9 @@ func genTables(repo, out string) error {
 	var sels []selRow
 	var accs []accRow
 	var calls, gos []callEdge
+	var bares []bareRow
+	var acqs []acqRow
+	var qcalls []qcallRow
 	var funcs []string
 	for _, f := range p.files {
 		for _, d := range f.Decls {
@@ -391,7 +554,7 @@ func genTables(repo, out string) error {
 			name, recvName, recvType := funcKey(fd)
 			funcs = append(funcs, name)
 			ngo := 0
-			w := &walker{p: p, fn: name, recvName: recvName, recvType: recvType, sels: &sels, accs: &accs, calls: &calls, gos: &gos, fields: fields, ngo: &ngo}
+			w := &walker{p: p, fn: name, recvName: recvName, recvType: recvType, sels: &sels, accs: &accs, calls: &calls, gos: &gos, fields: fields, ngo: &ngo, bares: &bares, acqs: &acqs, qcalls: &qcalls, qual: map[string]string{}}
 			w.block(fd.Body.List, nil, false)
 		}
 	}
@@ -464,6 +627,22 @@ func genTables(repo, out string) error {
 		fmt.Fprintf(&b, "  (%s, %v, %s)%s\n", coqStr(s.fn), s.hasDefault, coqStrList(s.cases), sep)
 	}
 	b.WriteString("].\n\n")
+	b.WriteString("(* every channel send (chan<-), receive (<-chan) or range outside a select: function, operation *)\n")
+	b.WriteString("Definition bare_chanop_table : list (string * string) := [\n")
+	sort.SliceStable(bares, func(i, j int) bool {
+		if bares[i].fn != bares[j].fn {
+			return bares[i].fn < bares[j].fn
+		}
+		return bares[i].line < bares[j].line
+	})
+	for i, s := range bares {
+		sep := ";"
+		if i == len(bares)-1 {
+			sep = ""
+		}
+		fmt.Fprintf(&b, "  (%s, %s)%s\n", coqStr(s.fn), coqStr(s.op), sep)
+	}
+	b.WriteString("].\n\n")
 	b.WriteString("(* every access to a field of a shared struct through the method receiver:\n   struct, field, is-write, function, locks held, through sync/atomic *)\n")
 	b.WriteString("Definition access_table : list (string * string * bool * string * list string * bool) := [\n")
 	sort.SliceStable(accs, func(i, j int) bool {
@@ -507,6 +686,34 @@ func genTables(repo, out string) error {
 	}
 	edge("call_table", calls)
 	edge("go_table", gos)
+	b.WriteString("(* every mutex acquisition: function, lock (struct.field), locks already held *)\n")
+	{
+		seenA := map[string]bool{}
+		var rs []string
+		for _, a := range acqs {
+			r := fmt.Sprintf("(%s, %s, %s)", coqStr(a.fn), coqStr(a.lock), coqStrList(a.held))
+			if !seenA[r] {
+				seenA[r] = true
+				rs = append(rs, r)
+			}
+		}
+		sort.Strings(rs)
+		fmt.Fprintf(&b, "Definition acquire_table : list (string * string * list string) := [\n  %s\n].\n\n", strings.Join(rs, ";\n  "))
+	}
+	b.WriteString("(* every call of a function or method of this package: caller, callee (Type.Method), locks held at the call *)\n")
+	{
+		seenC := map[string]bool{}
+		var rs []string
+		for _, c := range qcalls {
+			r := fmt.Sprintf("(%s, %s, %s)", coqStr(c.from), coqStr(c.to), coqStrList(c.held))
+			if !seenC[r] {
+				seenC[r] = true
+				rs = append(rs, r)
+			}
+		}
+		sort.Strings(rs)
+		fmt.Fprintf(&b, "Definition call_lock_table : list (string * string * list string) := [\n  %s\n].\n\n", strings.Join(rs, ";\n  "))
+	}
 	sort.Strings(funcs)
 	fmt.Fprintf(&b, "Definition function_table : list string := %s.\n", coqStrList(funcs))
 	path := filepath.Join(out, "TablesGen.v")
